@@ -4,7 +4,125 @@ import random
 from pyvc.bounded import Harness, Failure
 from spec import pddl_sem as PS, semantics as SEM, gen as G, repo_api as RA, sexp as SX, views as V
 
-CONTRACTS = {}
+import z3
+from pyvc.core import Val
+from pyvc.sorts import I, S, B, Q
+
+MAC = "multi_agent.common:"
+OP = "models.pddl_operator:Operator."
+_ST = ("ref", "State")
+_OPR = ("ref", "Operator")
+# call_app(action, args, state): the precondition of action(args) holds in state   (established bounded by C02)
+_call_app = z3.Function("call_app", I, Q, I, B)
+_op_succ = z3.Function("op_succ", I, I, I, B)
+
+
+def _op_app(interp, st, op, state):
+    act = interp.read_field(st, op, "Operator", "action")
+    objs = interp.read_field(st, Val(interp.read_field(st, op, "Operator", "grounded_call_objects").t, ("ref", "list_str")), "list_str", "items")
+    return _call_app(act.t, objs.t, state.t)
+
+
+def _h_op_applicable(interp, st, a):
+    return Val(_op_app(interp, st, a[0], a[1]), "bool")
+
+
+def _h_op_succ(interp, st, a):
+    return Val(_op_succ(a[0].t, a[1].t, a[2].t), "bool")
+
+
+def _member_ok(interp, st, domain, call, state, allow):
+    """member is nop, or applicable in `state`, or inapplicable actions are allowed"""
+    name = interp.read_field(st, call, "ActionCall", "name")
+    params = interp.read_field(st, Val(interp.read_field(st, call, "ActionCall", "parameters").t, ("ref", "list_str")), "list_str", "items")
+    acts = interp.read_field(st, domain, "Domain", "actions")
+    amap = interp.read_field(st, Val(acts.t, ("ref", "dict_str_ref")), "dict_str_ref", "map")
+    return z3.Or(name.t == z3.StringVal("nop"), _call_app(z3.Select(amap.t, name.t), params.t, state.t), allow.t)
+
+
+def _h_member_ok(interp, st, a):
+    return Val(_member_ok(interp, st, a[0], a[1], a[2], a[3]), "bool")
+
+
+_HOOKS = {"op_applicable": _h_op_applicable, "op_succ": _h_op_succ, "member_ok": _h_member_ok}
+MAE = "multi_agent.multi_agent_trajectory_exporter:MultiAgentTrajectoryExporter."
+_MT = ("ref", "MultiAgentTrajectoryTriplet")
+# joint_step(t, prev, line, objs, allow): what create_multi_agent_triplet guarantees about one joint step (executed bounded by c16-export / c16-joint)
+_joint_step = z3.Function("joint_step", I, I, S, I, B, B)
+_HOOKS2 = {"joint_step": lambda interp, st, a: Val(_joint_step(a[0].t, a[1].t, a[2].t, a[3].t, a[4].t), "bool")}
+CONTRACTS = {
+    OP + "apply": dict(
+        prop="C16", assumed=True,
+        params={"self": _OPR, "previous_state": _ST, "allow_inapplicable_actions": "bool", "skip_validation": "bool"}, returns=_ST,
+        ensures=["fresh(result)", "op_succ(self, previous_state, result)"],
+        raises={"ValueError": "not op_applicable(self, previous_state) and not allow_inapplicable_actions and not skip_validation"},
+        must_raise=["not op_applicable(self, previous_state) and not allow_inapplicable_actions and not skip_validation"],
+        modifies=["Operator.grounded[self]", "Operator.grounded_effects[self]", "Operator.grounded_preconditions[self]"], spec_hooks=_HOOKS),
+    OP + "is_applicable": dict(
+        prop="C16", assumed=True, params={"self": _OPR, "state": _ST}, returns="bool",
+        ensures=["result == op_applicable(self, state)"], raises={},
+        modifies=["Operator.grounded[self]", "Operator.grounded_effects[self]", "Operator.grounded_preconditions[self]"], spec_hooks=_HOOKS),
+    "models.pddl_state:State.copy": dict(prop="C16", assumed=True, params={"self": _ST}, returns=_ST, ensures=["fresh(result)"], raises={}, modifies=[]),
+    MAC + "create_initial_state": dict(
+        prop="C16", params={"problem": ("ref", "Problem")}, returns=_ST,
+        ensures=["fresh(result)", "result.is_init", "result.state_predicates == problem.initial_state_predicates",
+                 "result.state_fluents == problem.initial_state_fluents"], raises={}, modifies=[]),
+    MAE + "create_multi_agent_triplet": dict(
+        prop="C16", assumed=True,
+        params={"self": ("ref", "MultiAgentTrajectoryExporter"), "previous_state": _ST, "action_call": "str", "problem_objects": ("ref", "opaque"),
+                "allow_inapplicable_actions": "bool"},
+        returns=_MT, ensures=["fresh(result)", "result.previous_state == previous_state", "fresh(result.next_state)",
+                              "joint_step(result, previous_state, action_call, problem_objects, allow_inapplicable_actions)"],
+        raises={"ValueError": "True", "KeyError": "True", "IndexError": "True"}, modifies=[], spec_hooks=_HOOKS2),
+    MAE + "_read_plan": dict(prop="C16", assumed=True, params={"self": ("ref", "MultiAgentTrajectoryExporter"), "plan_file_path": "str"},
+                             returns=("ref", "list_str"), ensures=["fresh(result)"], raises={}, modifies=[]),
+    MAE + "parse_plan": dict(
+        prop="C16",
+        params={"self": ("ref", "MultiAgentTrajectoryExporter"), "problem": ("ref", "Problem"), "plan_path": "str",
+                "action_sequence": ("ref", "list_str"), "allow_inapplicable_actions": "bool"},
+        optional=("action_sequence",), locals={"triplets": ("seq", _MT)}, returns=("seq", _MT),
+        requires=["action_sequence is not None"],
+        # one step per joint action, in order; first pre-state = the problem's initial state; chained states; each step is the joint step of its line
+        ensures=["len(result) == len(action_sequence)",
+                 "implies(len(result) > 0, result[0].previous_state.is_init and result[0].previous_state.state_predicates == problem.initial_state_predicates "
+                 "and result[0].previous_state.state_fluents == problem.initial_state_fluents)",
+                 "forall_int(lambda k: result[k].previous_state == result[k - 1].next_state, 1, len(result))",
+                 "forall_int(lambda k: joint_step(result[k], result[k].previous_state, seq(action_sequence)[k], problem.objects, allow_inapplicable_actions), 0, len(result))"],
+        raises={"ValueError": "True", "KeyError": "True", "IndexError": "True"}, modifies=[],
+        calls={"self.create_multi_agent_triplet": MAE + "create_multi_agent_triplet", "self._read_plan": MAE + "_read_plan",
+               "create_initial_state": MAC + "create_initial_state"},
+        loops={0: dict(invariants=[
+            "len(triplets) == _i",
+            "implies(_i == 0, previous_state.is_init and previous_state.state_predicates == problem.initial_state_predicates and "
+            "previous_state.state_fluents == problem.initial_state_fluents)",
+            "implies(_i > 0, previous_state == triplets[_i - 1].next_state)",
+            "implies(_i > 0, triplets[0].previous_state.is_init and triplets[0].previous_state.state_predicates == problem.initial_state_predicates and "
+            "triplets[0].previous_state.state_fluents == problem.initial_state_fluents)",
+            "forall_int(lambda k: triplets[k].previous_state == triplets[k - 1].next_state, 1, _i)",
+            "forall_int(lambda k: joint_step(triplets[k], triplets[k].previous_state, _seq[k], problem.objects, allow_inapplicable_actions), 0, _i)",
+        ], modifies=[])},
+        spec_hooks=_HOOKS2),
+    MAC + "apply_actions": dict(
+        prop="C16",
+        params={"domain": ("ref", "Domain"), "current_state": _ST, "joint_action": ("ref", "list_ActionCall"),
+                "allow_inapplicable_actions": "bool", "problem_objects": ("ref", "opaque")},
+        optional=("problem_objects",),
+        locals={"action_call": ("ref", "ActionCall"), "operator": _OPR, "accumulative_changed_state": _ST},
+        returns=_ST, dict_values={"dict_str_ref": "Action"},
+        requires=["allocated(domain.actions)"],
+        # a normal return means that every non-nop member was applicable in the CURRENT state (or inapplicable actions were allowed) ...
+        ensures=["forall_int(lambda j: member_ok(domain, seq(joint_action)[j], current_state, allow_inapplicable_actions), 0, len(joint_action))",
+                 "fresh(result)"],
+        # ... and the refusal is an error raised exactly in that situation (KeyError only for an undeclared action name)
+        raises={"ValueError": "exists_int(lambda j: not member_ok(domain, seq(joint_action)[j], current_state, allow_inapplicable_actions), 0, len(joint_action))",
+                "KeyError": "True"},
+        # the input state, the domain and the joint action are not written (strict frame: only objects created by this call)
+        modifies=[],
+        calls={"Operator.apply": OP + "apply", "Operator.is_applicable": OP + "is_applicable", "State.copy": "models.pddl_state:State.copy"},
+        loops={0: dict(invariants=["forall_int(lambda j: member_ok(domain, _seq[j], current_state, allow_inapplicable_actions), 0, _i)",
+                                   "fresh(accumulative_changed_state)"], modifies=[])},
+        spec_hooks=_HOOKS),
+}
 LEVEL = "other"
 EXPLANATION = ("bounded stand-in: apply_actions on joint actions of 1-3 members (scenario calls, nop padding at every position) over sampled "
                "reachable states: when all non-nop members are applicable and pairwise non-interfering the result equals the sequential "
@@ -74,7 +192,7 @@ class JointActions(Harness):
         rnd = random.Random(seed)
         calls = [None] + G.scenario_calls()
         joints = [j for n in (1, 2, 3) for j in itertools.product(calls, repeat=n) if any(j)]
-        joints = rnd.sample(joints, 300 if tier == "quick" else 1500)
+        joints = rnd.sample(joints, 300 if tier == "quick" else 1500) + [(None,), (None, None), (None, None, None)]   # all-nop joint actions change nothing
         for j in joints:
             for si in range(12):
                 for allow in (False, True):
